@@ -49,7 +49,7 @@ def preload():
 
 EXPECTED_PROBES = {t: ["enum_width_3", "enum_width_5_7", "enum_width_9_16", "raise_then_layout", "relayout_same",
                        "options_then_plain_binding", "nested_array", "array_of_struct_unrolled", "ids_out_of_order",
-                       "same_field_name_in_two_structs_with_block", "sibling_named_like_array_element"] for t in TIERS}
+                       "same_field_name_in_two_structs_with_block", "sibling_named_like_array_element", "tree_field_lists_permuted", "sibling_differs_in_case"] for t in TIERS}
 
 OPT_KEYS = ("endianess", "mux_signal", "mux_count")
 
@@ -118,6 +118,14 @@ def gen_schema(rng):
             fields.append({"name": f"{base_f['name']}_{rng.randint(0, 2)}", "id": max(f["id"] for f in fields) + 1 + rng.randint(0, 2),
                            "type": [rng.choice("ui"), rng.randint(1, 16)]})
             rng.shuffle(fields)
+        if rng.random() < 0.2:
+            # a sibling whose name differs from another field's only in case (speed / Speed): a differently named field
+            base_f = rng.choice(fields)
+            variant = base_f["name"].capitalize() if rng.random() < 0.6 else base_f["name"].upper()
+            if variant not in [f["name"] for f in fields]:
+                fields.append({"name": variant, "id": max(f["id"] for f in fields) + 1 + rng.randint(0, 2),
+                               "type": [rng.choice("ui"), rng.randint(1, 16)]})
+                rng.shuffle(fields)
         name = f"Msg{S.PASCAL[(si * 7 + 3) % len(S.PASCAL)]}{si}"
         decls.append({"kind": "struct", "name": name, "fields": fields})
         structs.append((name, depth_here))
@@ -171,6 +179,10 @@ def gen_schema(rng):
 def gen_ops(rng, nb):
     n = rng.randint(12, 60)
     ops = []
+    if rng.random() < 0.2:
+        # hammer: the same binding laid out many times in a row on one encoder (if it raises, that is 10-45 failed calls)
+        enc, bi = rng.choice("UN"), rng.randrange(nb)
+        ops += [["layout", enc, bi]] * rng.randint(10, 45)
     for _ in range(n):
         enc = rng.choice("UN")
         k = weighted(rng, [("layout", 8), ("again", 2), ("fresh", 1)])
@@ -188,7 +200,7 @@ def gen_ops(rng, nb):
 
 
 class System:
-    def __init__(self, decls):
+    def __init__(self, decls, field_order_seed=None):
         setup_repo_path()
         from fcp.parser import get_fcp_from_string
         from fcp.error import Logger
@@ -200,6 +212,12 @@ class System:
         if r.is_err():
             raise RuntimeError("generated schema rejected: " + repr(r.err()) + "\n" + self.src)
         self.fcp = r.unwrap()
+        if field_order_seed is not None:
+            # the tree as an API user may build it: the order of a struct's field LIST is free, the wire order is by id
+            import random as _random
+            fr = _random.Random(field_order_seed)
+            for st in self.fcp.structs:
+                fr.shuffle(st.fields)
         self.pristine = copy.deepcopy(self.fcp)
         self.enums, self.structs = S.index(decls)
         # bindings: the explicit impls, then the default impl of every struct
@@ -301,78 +319,68 @@ def leaf_type_kind(sysm, sname, leafname, unroll):
 
 
 def judge_options(values, want, signals, structs, sname, unroll):
-    """Option isolation (clause 4). want rows: (name, start, width, origin field name)."""
+    """Option isolation (clause 4). want rows: (name, start, width, own field name, array-derived?, field names on the path).
+
+    A leaf may carry an option only if a signal block of this binding declares it for the leaf's own field, for the
+    derived element name (x_0), or for a field it hangs under (an array or struct field on its hierarchical path: the
+    weaker reading - whether a block on an outer field reaches the leaves below it is not fixed by the property).
+    A scalar leaf must carry everything its own field's block declares."""
     blocks = {}
     for sb in signals:
         blocks.setdefault(sb["name"], dict((k, v) for k, v in sb["fields"]))
-    # which leaves are array-derived (unrolled element or whole-array leaf)
     out = []
     for v, w in zip(values, want):
-        name, _, _, origin, _arr = w
-        leafname = name.split("::")[-1]
-        is_array_leaf = leafname != origin or w[4]
+        name, _, _, origin, is_array_leaf, path = w
         ed = v.extended_data if isinstance(v.extended_data, dict) else {}
         carried = {k: ed[k] for k in OPT_KEYS if k in ed}
         if v.endianess != "little":
             carried["endianess"] = v.endianess
         elif carried.get("endianess") == "little":
             carried.pop("endianess")      # "little" is the default: carrying it says nothing
-        blk = blocks.get(origin)
-        own = blocks.get(leafname)
-        if blk is None and own is None:
-            if carried:
-                out.append(("option_leak", f"leaf {name} (field {origin}) carries {carried} but this binding declares no "
-                                           f"signal block for {origin}"))
-        elif not is_array_leaf and blk is not None:
-            exp = {k: blk[k] for k in OPT_KEYS if k in blk}
-            if exp.get("endianess") == "little":
-                exp.pop("endianess")
-            if carried != exp:
-                out.append(("option_missing_or_wrong", f"leaf {name}: options {carried} != declared {exp}"))
+        sources = [blocks[n] for n in [origin] + [n for n in reversed(path[:-1])] if n in blocks]
+        derived = [b for n, b in blocks.items() if n.startswith(origin + "_") and n[len(origin) + 1:].isdigit()] if is_array_leaf else []
+        for k, x in carried.items():
+            if not any(k in b and b[k] == x for b in sources + derived):
+                where = f"for {origin}" + (f" or the fields above it {path[:-1]}" if len(path) > 1 else "")
+                out.append(("option_leak", f"leaf {name} carries {k}={x!r}, which no signal block of this binding declares {where}"))
+                break
         else:
-            # array-derived leaf: must not carry anything that no candidate block declares
-            allowed = {}
-            for b in (blk, own):
-                if b:
-                    allowed.update({k: b[k] for k in OPT_KEYS if k in b})
-            for k, x in carried.items():
-                if k == "endianess" and x == "little":
-                    continue
-                if allowed.get(k) != x:
-                    out.append(("option_leak", f"array leaf {name}: option {k}={x!r} is declared by no block for {origin}"))
+            own = blocks.get(origin)
+            if own is not None and not is_array_leaf:
+                exp = {k: own[k] for k in OPT_KEYS if k in own and not (k == "endianess" and own[k] == "little")}
+                missing = {k: x for k, x in exp.items() if carried.get(k) != x}
+                if missing:
+                    out.append(("option_missing_or_wrong", f"leaf {name}: declared options {missing} are missing or different (carried {carried})"))
     return out
 
 
 def want_rows(decls, sname, unroll):
-    """ref_layout rows extended with an 'array leaf' flag."""
+    """ref_layout rows extended with an 'array-derived leaf' flag and the declared field names on the leaf's path."""
     rows = S.ref_layout(decls, sname, unroll)
     _, structs = S.index(decls)
-    out = []
+    extra = []
 
-    # recompute array-ness by walking in the same order
-    flags = []
-
-    def walk(name, t, arr):
+    def walk(t, arr, path):
         if t[0] == "struct":
             for f in sorted(structs[t[1]]["fields"], key=lambda f: f["id"]):
-                walk(f["name"], f["type"], arr)
+                walk(f["type"], arr, path + [f["name"]])
         elif t[0] == "arr" and unroll:
-            for i in range(t[2]):
-                walk(f"{name}_{i}", t[1], True)
+            for _ in range(t[2]):
+                walk(t[1], True, path)
         else:
-            flags.append(arr or t[0] == "arr")
+            extra.append((arr or t[0] == "arr", path))
 
     for f in sorted(structs[sname]["fields"], key=lambda f: f["id"]):
-        walk(f["name"], f["type"], False)
-    for r, a in zip(rows, flags):
-        out.append((r[0], r[1], r[2], r[3], a))
-    return out
+        walk(f["type"], False, [f["name"]])
+    return [(r[0], r[1], r[2], r[3], a, pth) for r, (a, pth) in zip(rows, extra)]
 
 
-def execute(decls, ops, probes=None, tr=None, distinct=None, shape=None):
+def execute(decls, ops, probes=None, tr=None, distinct=None, shape=None, field_order_seed=None):
     """Run one history. Returns (violations[(class, detail, msg, opindex)], evals)."""
     probes = probes if probes is not None else Counter()
-    sysm = System(decls)
+    sysm = System(decls, field_order_seed)
+    if field_order_seed is not None:
+        probes["tree_field_lists_permuted"] += 1
     enc = {"U": sysm.new_encoder(True), "N": sysm.new_encoder(False)}
     prev = {"U": None, "N": None}          # (binding index, outcome) of the previous call on that encoder
     since_fresh = {"U": 0, "N": 0}
@@ -495,6 +503,8 @@ def schema_probes(decls, probes):
             names[f["name"]] += 1
             if f["name"][-2:-1] == "_" and f["name"][-1].isdigit():
                 probes["sibling_named_like_array_element"] += 1
+            if f["name"] != f["name"].lower() and f["name"].lower() in [g["name"] for g in s["fields"]]:
+                probes["sibling_differs_in_case"] += 1
             t = f["type"]
             if t[0] == "arr" and t[1][0] == "arr":
                 probes["nested_array"] += 1
@@ -507,10 +517,10 @@ def schema_probes(decls, probes):
                     probes["same_field_name_in_two_structs_with_block"] += 1
 
 
-def mk_violation(v, decls, ops, run=None):
+def mk_violation(v, decls, ops, run=None, field_order_seed=None):
     cls, detail, msg, oi = v
     return {"class": cls, "signature": f"C04:{cls}:{detail}", "message": msg, "run": run,
-            "workload": {"decls": decls, "ops": ops[:oi + 1]}}
+            "workload": {"decls": decls, "ops": ops[:oi + 1], "field_order_seed": field_order_seed}}
 
 
 def run_one(seed: int, index: int, tier: str) -> dict:
@@ -523,15 +533,17 @@ def run_one(seed: int, index: int, tier: str) -> dict:
     nb = sum(1 for d in decls if d["kind"] in ("impl", "struct"))
     ops = gen_ops(stream(run_seed, "ops"), nb)
     schema_probes(decls, probes)
+    rsw = stream(run_seed, "swarm")
+    fos = rsw.randrange(1, 1 << 30) if rsw.random() < 0.3 else None
     try:
-        viol, evals = execute(decls, ops, probes, tr, distinct, shape_sig(decls))
+        viol, evals = execute(decls, ops, probes, tr, distinct, shape_sig(decls), fos)
     except RuntimeError as e:
         res["harness_errors"].append(f"run {index}: {e}")
         res["digest"] = "x"
         return res
     res["evals"] = evals
     for v in viol[:3]:
-        res["violations"].append(mk_violation(v, decls, ops, index))
+        res["violations"].append(mk_violation(v, decls, ops, index, fos))
     res["digest"] = tr.digest()
     res["probes"] = probes
     res["faults"] = Counter({"encoder_replaced": sum(1 for o in ops if o[0] == "fresh"),
@@ -542,8 +554,8 @@ def run_one(seed: int, index: int, tier: str) -> dict:
 
 
 def check_workload(w):
-    viol, _ = execute(w["decls"], w["ops"])
-    return [mk_violation(v, w["decls"], w["ops"]) for v in viol]
+    viol, _ = execute(w["decls"], w["ops"], field_order_seed=w.get("field_order_seed"))
+    return [mk_violation(v, w["decls"], w["ops"], None, w.get("field_order_seed")) for v in viol]
 
 
 def replay(workload):
@@ -556,7 +568,7 @@ def minimise(v):
     key = (v["class"], v["signature"])
 
     def fails_ops(ops):
-        return any((x["class"], x["signature"]) == key for x in pristine(check_workload, {"decls": w["decls"], "ops": ops}))
+        return any((x["class"], x["signature"]) == key for x in pristine(check_workload, {"decls": w["decls"], "ops": ops, "field_order_seed": w.get("field_order_seed")}))
 
     ops = ddmin(list(w["ops"]), fails_ops, 200) if len(w["ops"]) > 1 else w["ops"]
 
@@ -589,14 +601,14 @@ def minimise(v):
             if rops is None or not any(d["kind"] == "struct" for d in cand):
                 continue
             try:
-                ok = any((x["class"], x["signature"]) == key for x in pristine(check_workload, {"decls": cand, "ops": rops}))
+                ok = any((x["class"], x["signature"]) == key for x in pristine(check_workload, {"decls": cand, "ops": rops, "field_order_seed": w.get("field_order_seed")}))
             except Exception:
                 ok = False
             if ok:
                 decls, ops = cand, rops
                 changed = True
                 break
-    out = dict(v, workload={"decls": decls, "ops": ops}, minimised=True)
+    out = dict(v, workload={"decls": decls, "ops": ops, "field_order_seed": w.get("field_order_seed")}, minimised=True)
     vs = [x for x in pristine(check_workload, out["workload"]) if (x["class"], x["signature"]) == key]
     if vs:
         out["message"] = vs[0]["message"]
